@@ -58,6 +58,16 @@ st("C11", "exploration", "deterministic simulation: filter readers over SimSourc
    "filter.inverse: BCJReader(BCJWriter(x)) == x and DeltaReader(DeltaWriter(x)) == x for 8 architectures, aligned start offsets incl. near 2^31/2^32, distances 1..256, inputs random / real executables / synthetic branch-dense code / lengths around 0, 4096, 8192. filter.ref: filtered bytes equal liblzma's filter output (LZMA2 as lossless carrier) and our reader decodes liblzma's filtered bytes. bcj2.roundtrip: a harness encoder (7-Zip Bcj2 format, conversion decisions drawn from the PRNG) produces four streams, BCJ2Reader over four SimSources with independent short/Interrupted schedules must return x.",
    "The harness BCJ2 encoder is trusted (written from the 7-Zip format; validated only by the round trip). liblzma trusted as filter reference.")
 
+st("C04", "fault_enumeration", "deterministic simulation with storage-fault injection between writer and reader: exhaustive single-bit flips on small files, seeded compound faults and structured field edits with CRC fix-up beyond; LZIPReaderMT under the seeded scheduler",
+   "Valid XZ (with check) and LZIP files are damaged and read back: every single-bit flip of small files, random compound faults (flip/subst/zero/delete/insert/dup/swap/trunc/torn), edits of every header, size, CRC and control field with and without CRC fix-up, and non-format input. The read must fail or return exactly the original (LZIP trailing-garbage rule; damage that yields another valid file per liblzma is exempt). The MT LZIP reader gets the same treatment under seeded schedules (mt.corrupt).",
+   "Bytes delivered before an eventual error are not judged. liblzma arbitrates 'another valid file'. Harness container parsers trusted.")
+CHECKS["C04"]["engine"] = "lzsim-st + lzsim-mt"
+st("C06", "exploration", "deterministic simulation: hostile media on the Read seam with resource monitors (panic capture, worker-process death attribution, output and allocation budgets via the allocator seam, reads after error); MT readers under the seeded scheduler with small coroutine stacks",
+   "Random and structure-aware hostile inputs (CRCs recomputed so damage reaches deep parsing, extreme size/count/property fields, hostile caller parameters, tens of thousands of empty units) into every decoder incl. BCJ/BCJ2/Delta and the MT readers; each read must return Ok/Err without panic, abort, stack overflow, sticky Interrupted, runaway output or allocation beyond the declared dictionary plus an input-proportional budget; reads after an error must return too.",
+   "Budgets are the harness's formulae (documented in the evidence rule); stack overflow of MT readers is judged against the coroutine stack sizes the harness chooses.")
+CHECKS["C06"]["engine"] = "lzsim-st + lzsim-mt"
+CHECKS["C13"]["engine"] = "lzsim-st + lzsim-mt"
+
 NOT_YET = {}
 for i in range(1, 20):
     pid = f"C{i:02d}"
@@ -89,8 +99,8 @@ def main():
             "add_only": True,
         },
         "engines": [
-            {"name": "lzsim-st", "path": "/verif/sim/st", "serves_properties": sorted(p for p, c in CHECKS.items() if c["engine"] == "lzsim-st"), "kind_free_text": "seeded single-process simulator over the Read/Write/allocator seams, worker processes, minimiser, replay files"},
-            {"name": "lzsim-mt", "path": "/verif/sim/mt", "serves_properties": sorted(p for p, c in CHECKS.items() if c["engine"] == "lzsim-mt"), "kind_free_text": "the same simulator plus a seeded scheduler (own implementation of shuttle's Scheduler trait) deciding every interleaving of coordinator and worker threads"},
+            {"name": "lzsim-st", "path": "/verif/sim/st", "serves_properties": sorted(p for p, c in CHECKS.items() if "lzsim-st" in c["engine"]), "kind_free_text": "seeded single-process simulator over the Read/Write/allocator seams, worker processes, minimiser, replay files"},
+            {"name": "lzsim-mt", "path": "/verif/sim/mt", "serves_properties": sorted(p for p, c in CHECKS.items() if "lzsim-mt" in c["engine"]), "kind_free_text": "the same simulator plus a seeded scheduler (own implementation of shuttle's Scheduler trait) deciding every interleaving of coordinator and worker threads"},
         ],
         "checks": checks,
         "not_applicable": [{"property_id": k, "reason": v} for k, v in sorted(NOT_YET.items())],
